@@ -1,8 +1,427 @@
-/-! stub driver: answers "bad-op" to every line until the family's model is wired in -/
-partial def loop (h : IO.FS.Stream) : IO Unit := do
+import NbioVerif.Model.Life
+import NbioVerif.DrvCommon
+/-! lifedrv: runs the Lifecycle model on the annotated ops of `hlife` (see harness/cmd/hlife/main.go). One engine,
+several conns; every op is a composition of the model's small steps (`flip`, `teardown`, `dialed`, `userOp`, …). -/
+open Life
+
+def errStr : Err → String
+  | .nil => "nil" | .eof => "eof" | .closed => "closed" | .rtimeout => "rtimeout" | .wtimeout => "wtimeout"
+  | .dtimeout => "dtimeout" | .overflow => "overflow" | .epipe => "epipe" | .refused => "refused" | .reset => "reset"
+  | .unreach => "unreach" | .again => "again" | .user k => s!"u{k}" | .other => "other"
+
+def parseErr (s : String) : Option Err :=
+  if s == "nil" then some .nil else if s == "eof" then some .eof else if s == "closed" then some .closed
+  else if s == "rtimeout" then some .rtimeout else if s == "wtimeout" then some .wtimeout
+  else if s == "dtimeout" then some .dtimeout else if s == "overflow" then some .overflow
+  else if s == "epipe" then some .epipe else if s == "refused" then some .refused else if s == "reset" then some .reset
+  else if s == "unreach" then some .unreach
+  else if s.startsWith "u" then some (.user (s.drop 1).toString.toNat!) else none
+
+structure Flags where
+  inn : Bool := false
+  out : Bool := false
+  hang : Bool := false
+
+def parseFlags (s : String) : Option Flags :=
+  (s.splitOn "+").foldl (fun acc t => acc.bind fun w =>
+    if t == "in" then some { w with inn := true } else if t == "out" then some { w with out := true }
+    else if t == "rdhup" || t == "err" || t == "hup" then some { w with hang := true } else none) (some {})
+
+inductive KAns | ok | again | intr | fail deriving DecidableEq
+
+def parseAns (s : String) : Option (List KAns) :=
+  if s == "-" then some [] else
+  (s.splitOn ",").foldr (fun t acc => acc.bind fun l =>
+    if t == "ok" then some (.ok :: l) else if t == "again" then some (.again :: l)
+    else if t == "intr" then some (.intr :: l) else if t == "fail" then some (.fail :: l) else none) (some [])
+
+/-- a conn of the engine with what the driver needs besides the lifecycle state -/
+structure E where
+  id : Nat
+  c : Conn
+  unix : Bool := false
+  rq : Nat := 0                       -- bytes in the receive queue
+  eof : Bool := false
+  rerr : Bool := false
+  dq : List Nat := []                 -- datagram sources (ports) queued on a UDP listener
+  sessions : List (Nat × Nat) := []   -- UDP listener: port ↦ session id (live sessions)
+  nsess : Nat := 0
+  parent : Nat := 0
+  port : Nat := 0
+  peer : Bool := false                -- accepted conn: the real client is still there
+
+structure DS where
+  mode : String := "lt"
+  maxwb : Nat := 0
+  es : List E := []
+  stopped : Bool := true
+  listen : Bool := false
+  opens : List String := []
+  closes : List String := []
+  dials : List String := []
+
+def DS.get (d : DS) (id : Nat) : Option E := d.es.find? (·.id == id)
+def DS.put (d : DS) (e : E) : DS :=
+  if d.es.any (·.id == e.id) then { d with es := d.es.map fun x => if x.id == e.id then e else x }
+  else { d with es := d.es ++ [e] }
+
+def left (c : Conn) : Nat := c.q.foldl (fun a i => match i with | .buf n => a + n | .file _ => a) 0
+
+/-- note the callbacks a lifecycle step produced (difference of the counters) -/
+def note (d : DS) (id : Nat) (c0 c1 : Conn) (dialErr : Err) : DS :=
+  let d := if c1.opens > c0.opens then { d with opens := d.opens ++ [toString id] } else d
+  let d := if c1.dialN > c0.dialN then { d with dials := d.dials ++ [s!"{id}:{errStr dialErr}"] } else d
+  if c1.closeN > c0.closeN then { d with closes := d.closes ++ [s!"{id}:{errStr c1.cerr}"] } else d
+
+/-- run the pending teardown of a conn (the flipper does, before its call returns), note the callbacks; a closing
+    UDP listener closes its sessions, a closing session leaves its listener's map -/
+partial def settle (d : DS) (id : Nat) : DS :=
+  match d.get id with
+  | none => d
+  | some e =>
+    match e.c.td with
+    | none => d
+    | some cause =>
+      let c1 := teardown e.c
+      let d := note (d.put { e with c := c1 }) id e.c c1 (if cause == .nil then .closed else cause)
+      if e.c.kind == .udp then
+        e.sessions.foldl (fun d (_, sid) =>
+          match d.get sid with
+          | some se => settle (d.put { se with c := flip se.c .nil true }) sid
+          | none => d) (d.put { e with c := c1, sessions := [] })
+      else if e.c.kind == .sess then
+        match d.get e.parent with
+        | some pe => d.put { pe with sessions := pe.sessions.filter (·.2 != id) }
+        | none => d
+      else d
+
+def closeE (d : DS) (id : Nat) (e : Err) : DS :=
+  match d.get id with
+  | none => d
+  | some x => settle (d.put { x with c := flip x.c e true }) id
+
+def failE (d : DS) (id : Nat) (e : Err) : DS :=
+  match d.get id with
+  | none => d
+  | some x => settle (d.put { x with c := flip x.c e false }) id
+
+/-- newToWriteBuf: append to the tail buffer while it stays within 64 KiB, else a new item -/
+def enqueue (q : List Item) (n : Nat) : List Item :=
+  match q.reverse with
+  | .buf m :: r => if m + n ≤ 65536 then (.buf (m + n) :: r).reverse else q ++ [.buf n]
+  | _ => q ++ [.buf n]
+
+/-- `flush`: head item by head item, one scripted kernel answer per syscall; an exhausted script is EAGAIN -/
+def flushQ : Nat → List Item → List KAns → List Item × Bool
+  | 0, q, _ => (q, false)
+  | _, [], _ => ([], false)
+  | _, q, [] => (q, false)
+  | f + 1, i :: q, a :: as =>
+    match a with
+    | .ok => flushQ f q as
+    | .again => (i :: q, false)
+    | .intr => flushQ f (i :: q) as
+    | .fail => (i :: q, true)
+
+def clStr (c : Conn) : String := if c.closed then "1:" ++ errStr c.cerr else "0"
+
+def sortStrs (l : List String) : List String := (l.toArray.qsort (· < ·)).toList
+
+def emit (d : DS) (what ret : String) (id? : Option Nat) (log : Nat := 0) : String × DS :=
+  let (cl, lf, it) := match id?.bind d.get with
+    | some e => (clStr e.c, left e.c, e.c.q.length)
+    | none => ("0", 0, 0)
+  (s!"R {what} ret={ret} open=[{String.intercalate "," d.opens}] close=[{String.intercalate "," (sortStrs d.closes)}] dial=[{String.intercalate "," d.dials}] c={cl} left={lf} items={it} log={log}",
+   { d with opens := [], closes := [], dials := [] })
+
+/-- the read part of an event on a stream conn: data is consumed; an error on an empty queue closes -/
+def readStream (d : DS) (e : E) : DS :=
+  if e.c.closed then d
+  else if e.rq > 0 then d.put { e with rq := 0 }
+  else if e.rerr then closeE d e.id .reset
+  else d
+
+/-- the read part of an event on a UDP listener: one session per source, opened on its first datagram -/
+def readUdp : Nat → DS → Nat → DS
+  | 0, d, _ => d
+  | f + 1, d, id =>
+    match d.get id with
+    | none => d
+    | some e =>
+      if e.c.closed then d else
+      match e.dq with
+      | [] => if e.rerr then closeE d id .reset else d
+      | p :: rest =>
+        match e.sessions.find? (·.1 == p) with
+        | some _ => readUdp f (d.put { e with dq := rest }) id
+        | none =>
+          let sid := 100 * id + e.nsess + 1
+          let sc : Conn := { kind := .sess, visible := true, pSet := true, opens := 1 }
+          let d := d.put { e with dq := rest, nsess := e.nsess + 1, sessions := e.sessions ++ [(p, sid)] }
+          let d := d.put { id := sid, c := sc, parent := id, port := p }
+          readUdp f { d with opens := d.opens ++ [toString sid] } id
+
+/-- `ev`/`dev`: the poller handles one event for the conn in the fd table -/
+def event (d : DS) (id : Nat) (fl : Flags) (ans : List KAns) (soerr : Option Err) (setSo : Bool) : DS × String :=
+  match d.get id with
+  | none => (d, "nil")
+  | some e =>
+    if !e.c.inTable then (d, "gone") else
+    -- EPOLLOUT: dial completion or flush
+    let d :=
+      if fl.out then
+        if e.c.dial == .pending then
+          let so := if setSo then soerr else none
+          let c1 := dialed e.c so
+          let d := note (d.put { e with c := c1 }) id e.c c1 .nil
+          settle d id
+        else if e.c.closed || e.c.q.isEmpty then d
+        else
+          let (q, failed) := flushQ 64 e.c.q ans
+          let d := d.put { e with c := { e.c with q := q } }
+          if failed then failE d id .epipe else d
+      else d
+    -- EPOLLIN
+    let d :=
+      if fl.inn then
+        match d.get id with
+        | some e => if e.c.kind == .udp then readUdp (if d.mode == "lt" then 3 else 1000) d id else readStream d e
+        | none => d
+      else d
+    -- EPOLLERR | EPOLLHUP | EPOLLRDHUP
+    let d := if fl.hang then closeE d id .eof else d
+    (d, "nil")
+
+def fmtRet (n : Int) (e : Err) : String := s!"{n}:{errStr e}"
+
+partial def loop (h : IO.FS.Stream) (d : DS) : IO Unit := do
   let line ← h.getLine
   if line.isEmpty then return ()
-  IO.println "bad-op"
-  loop h
+  let ws := line.trimAscii.toString.splitOn " "
+  let say (d : DS) (what ret : String) (id? : Option Nat) (log : Nat := 0) : IO Unit := do
+    let (l, d) := emit d what ret id? log
+    IO.println l
+    loop h d
+  let bad : IO Unit := do IO.println "bad-op"; loop h d
+  match ws with
+  | ["C", mode, np, mw, ln] =>
+    if (mode == "lt" || mode == "et" || mode == "os") && np.toNat! > 0 then
+      IO.println "ok"
+      loop h { mode, maxwb := mw.toNat!, stopped := false, listen := ln == "1" }
+    else bad
+  | _ =>
+    if d.stopped then bad else
+    match ws with
+    | ["add", id, typ] =>
+      let id := id.toNat!
+      if (d.get id).isSome || !(typ == "tcp" || typ == "unix") then bad else
+      let c0 : Conn := { kind := .add }
+      let c1 := addReg (addTable (addOpen c0))
+      let d := note (d.put { id, c := c1, unix := typ == "unix" }) id c0 c1 .nil
+      say d "add" "nil" (some id)
+    | ["addc", id, typ] =>
+      -- the open notification closes the conn; addConn carries on: table, then a registration that fails (EBADF)
+      let id := id.toNat!
+      if (d.get id).isSome || !(typ == "tcp" || typ == "unix") then bad else
+      let c0 : Conn := { kind := .add }
+      let c1 := addOpen c0
+      let d := note (d.put { id, c := c1, unix := typ == "unix" }) id c0 c1 .nil
+      let d := closeE d id .nil
+      match d.get id with
+      | some e =>
+        let c2 := addReg (addTable e.c)
+        say (d.put { e with c := c2 }) "addc" (if c2.reg then "nil" else "ebadf") (some id)
+      | none => bad
+    | ["dialx", id] =>
+      -- epoll registration fails: DialAsync returns the error, which is the one report; nobody ever sees the conn
+      let id := id.toNat!
+      if (d.get id).isSome then bad else
+      say (d.put { id, c := { kind := .dial, dial := .done, dialN := 1, fdOpen := false } }) "dial" "eexist" none
+    | ["addudp", id] =>
+      let id := id.toNat!
+      if (d.get id).isSome then bad else
+      let c1 : Conn := { kind := .udp, visible := true, pSet := true, inTable := true, reg := true }
+      say (d.put { id, c := c1 }) "addudp" "nil" (some id)
+    | ["dgram", id, port, _] =>
+      match d.get id.toNat! with
+      | some e => if e.c.kind != .udp then bad else say (d.put { e with dq := e.dq ++ [port.toNat!] }) "dgram" "nil" (some e.id)
+      | none => bad
+    | ["dial", id, kind, ms] =>
+      let id := id.toNat!
+      if (d.get id).isSome || !(kind == "inprog" || kind == "now" || kind == "refused") then bad else
+      let c0 : Conn := { kind := .dial }
+      if kind == "refused" then
+        -- connect(2) failed at once: DialAsync returns the error, no conn is created
+        say (d.put { id, c := { c0 with dial := .done, dialN := 1, closed := false, fdOpen := false } }) "dial" "refused" none
+      else
+        let c1 := if kind == "now" then dialNow c0 else dialStart c0 (ms.toNat! > 0)
+        let d := note (d.put { id, c := c1 }) id c0 c1 .nil
+        -- a dial timeout is waited for inside the op
+        let d := if kind == "inprog" && ms.toNat! > 0 then closeE d id .dtimeout else d
+        say d "dial" "nil" (some id)
+    | ["dev", id, fl, so] =>
+      match d.get id.toNat!, parseFlags fl with
+      | some e, some fl =>
+        if e.c.kind != .dial || (e.c.dial == .done && e.c.dialN == 1 && !e.c.visible) then bad else
+        let soerr : Option Err := if so == "refused" then some .refused else if so == "unreach" then some .unreach else none
+        let setSo := !e.c.closed && e.c.dial == .pending
+        let (d, ret) := event d e.id fl [] soerr setSo
+        say d "dev" ret (some e.id)
+      | _, _ => bad
+    | ["ev", id, fl, ans] =>
+      match d.get id.toNat!, parseFlags fl, parseAns ans with
+      | some e, some fl, some ans =>
+        if e.c.kind == .sess || !e.c.visible then bad else
+        let (d, ret) := event d e.id fl ans none false
+        say d "ev" ret (some e.id)
+      | _, _, _ => bad
+    | [op, id, _] =>
+      if op == "push" || op == "eof" || op == "rderr" then
+        match d.get id.toNat! with
+        | some e =>
+          if e.c.kind == .sess || e.c.kind == .acc || !e.c.visible then bad else
+          let e := if op == "push" then { e with rq := e.rq + (Drv.payload ws[2]!).length }
+                   else if op == "eof" then { e with eof := true } else { e with rerr := true }
+          say (d.put e) op "nil" (some e.id)
+        | none => bad
+      else if op == "rdial" then
+        let id := id.toNat!
+        if (d.get id).isSome || !d.listen then bad else
+        let kind := ws[2]!
+        let c0 : Conn := { kind := .dial }
+        if kind == "ok" then
+          let c1 := dialed (dialStart c0 true) none
+          let d := note (d.put { id, c := c1 }) id c0 c1 .nil
+          let a0 : Conn := { kind := .acc }
+          let a1 := addReg (addTable (addOpen a0))
+          let d := note (d.put { id := id + 1000, c := a1 }) (id + 1000) a0 a1 .nil
+          -- the dialing end is closed again inside the op; the accepted end sees the peer's close
+          let d := closeE (closeE d id .nil) (id + 1000) .eof
+          say d "rdial" "nil" (some id)
+        else if kind == "refused" then
+          let d := d.put { id, c := dialStart c0 true }
+          let (d, _) := event d id { out := true, hang := true } [] (some .refused) true
+          say d "rdial" "nil" (some id)
+        else bad
+      else bad
+    | [op, id, n, ans] =>
+      if op == "w" || op == "wv" || op == "sf" then
+        match d.get id.toNat!, parseAns ans with
+        | some e, some ans =>
+          if e.c.kind == .udp || e.c.kind == .sess || e.c.kind == .acc || !e.c.visible then bad else
+          let sizes := (n.splitOn "+").map String.toNat!
+          let total := sizes.foldl (· + ·) 0
+          let c := e.c
+          if c.closed then say d op (fmtRet (if op == "w" then -1 else 0) .closed) (some e.id)
+          else if op == "sf" then
+            if !c.q.isEmpty then say (d.put { e with c := { c with q := c.q ++ [.file total] } }) op (fmtRet total .nil) (some e.id)
+            else
+              -- direct sendfile loop: EINTR retries, EAGAIN (or an exhausted script) queues the rest
+              let rec go : List KAns → Nat → Option Bool   -- some true = sent, some false = queue, none = fail
+                | _, 0 => some false
+                | [], _ => some false
+                | .ok :: _, _ => some true
+                | .again :: _, _ => some false
+                | .intr :: r, f + 1 => go r f
+                | .fail :: _, _ => none
+              match go ans 64 with
+              | some true => say d op (fmtRet total .nil) (some e.id)
+              | some false => say (d.put { e with c := { c with q := [.file total] } }) op (fmtRet total .nil) (some e.id)
+              | none => say (failE d e.id .epipe) op (fmtRet 0 .epipe) (some e.id)
+          else
+            let single := op == "w" || sizes.length == 1
+            if single && total == 0 then say d op (fmtRet 0 .nil) (some e.id)
+            else if d.maxwb > 0 && left c + total > d.maxwb then say (failE d e.id .overflow) op (fmtRet (-1) .overflow) (some e.id)
+            else if !c.q.isEmpty then
+              let q := if single then enqueue c.q total else sizes.foldl (fun q k => if k == 0 then q else enqueue q k) c.q
+              say (d.put { e with c := { c with q := q } }) op (fmtRet total .nil) (some e.id)
+            else
+              match ans.head? with
+              | some .ok => say (d.put { e with c := { c with wT := false, wTdial := false } }) op (fmtRet total .nil) (some e.id)
+              | some .fail => say (failE d e.id .epipe) op (fmtRet (if single then -1 else 0) .epipe) (some e.id)
+              | a =>
+                -- EAGAIN / EINTR / exhausted script: nothing could be written now, the whole input is cached
+                -- (Write and, since the C01 repairs, Writev alike; empty buffers are not queued)
+                let _ := a
+                let q := if single then [.buf total] else sizes.foldl (fun q k => if k == 0 then q else enqueue q k) []
+                say (d.put { e with c := { c with q := q } }) op (fmtRet total .nil) (some e.id)
+        | _, _ => bad
+      else if op == "close" then
+        bad
+      else bad
+    | ["dl", id, k, _, cause] =>
+      match d.get id.toNat! with
+      | some e =>
+        if !e.c.visible then bad else
+        if !(k == "r" || k == "w" || k == "rw") then bad else
+        let c := e.c
+        if c.closed then say d "dl" "nil" (some e.id) else
+        -- setDeadline arms (or re-arms, keeping its cause) the timer(s); the op waits for the close
+        let c := { c with rT := c.rT || k == "r" || k == "rw", wT := c.wT || k == "w" || k == "rw",
+                          wTdial := if (k == "w" || k == "rw") && !c.wT then false else c.wTdial }
+        let cs := (cause.drop 6).toString
+        match parseErr cs with
+        | some er =>
+          let ok := (er == .rtimeout && c.rT) || (er == .wtimeout && c.wT && !c.wTdial) || (er == .dtimeout && c.wT && c.wTdial)
+          if ok then say (closeE (d.put { e with c }) e.id er) "dl" "nil" (some e.id)
+          else IO.println s!"R dl impossible-cause {cs}"; loop h d
+        | none => IO.println s!"R dl impossible-cause {cs}"; loop h d
+      | none => bad
+    | ["close", id, k, errs, w] =>
+      match d.get id.toNat! with
+      | some e =>
+        if !e.c.visible then bad else
+        let es := (errs.splitOn ",").map String.toNat!
+        if k.toNat! == 0 || k.toNat! != es.length then bad else
+        let win := (w.drop 7).toString
+        if e.c.closed then say d "close" "nil" (some e.id)
+        else
+          match (if win == "-" then none else es[win.toNat!]?) with
+          | some x => say (closeE d e.id (if x == 0 then .nil else .user x)) "close" "nil" (some e.id)
+          | none => IO.println "R close no-winner"; loop h d
+      | none => bad
+    | ["x", id] =>
+      match d.get id.toNat! with
+      | some e =>
+        if !e.c.visible then bad else
+        let (_, ok) := userOp e.c 0
+        say d "x" (if ok then "true:1" else "false:0") (some e.id)
+      | none => bad
+    | ["ops", id] =>
+      match d.get id.toNat! with
+      | some e =>
+        if e.c.kind == .udp || !e.c.visible then bad else
+        let (c1, ok) := userOp e.c 1
+        if ok then say d "ops" "open" (some e.id)
+        else say (d.put { e with c := c1 }) "ops" "-1:closed/0:closed/0:closed/false/0:closed" (some e.id) (c1.log - e.c.log)
+      | none => bad
+    | ["acc", id] =>
+      let id := id.toNat!
+      if (d.get id).isSome || !d.listen then bad else
+      let c0 : Conn := { kind := .acc }
+      let c1 := addReg (addTable (addOpen c0))
+      let d := note (d.put { id, c := c1, peer := true }) id c0 c1 .nil
+      say d "acc" "nil" (some id)
+    | [op, id] =>
+      if op == "eof" || op == "rderr" then
+        match d.get id.toNat! with
+        | some e =>
+          if e.c.kind == .sess || e.c.kind == .acc || !e.c.visible || (e.c.kind == .dial && e.c.dialN == 1 && !e.c.inTable && !e.c.closed) then bad else
+          say (d.put (if op == "eof" then { e with eof := true } else { e with rerr := true })) op "nil" (some e.id)
+        | none => bad
+      else if op == "cclose" || op == "creset" then
+        match d.get id.toNat! with
+        | some e =>
+          if !e.peer then bad else
+          say (closeE (d.put { e with peer := false }) e.id (if op == "creset" then .reset else .eof)) op "nil" (some e.id)
+        | none => bad
+      else bad
+    | ["stop"] =>
+      -- Stop closes what is in the fd table; a pending dial fails with the closed indication
+      let d := d.es.foldl (fun d e => if e.c.inTable then closeE d e.id .nil else d) d
+      let (l, d) := emit d "stop" "nil" none
+      IO.println l
+      loop h { d with stopped := true }
+    | _ => bad
 
-def main : IO Unit := do loop (← IO.getStdin)
+def main : IO Unit := do loop (← IO.getStdin) {}
